@@ -122,6 +122,26 @@ func probeRecursive() {
 	verdict("recursive-func", unsafe.Sizeof(n) == stride && unsafe.Offsetof(n.r2) == off && reflect.TypeOf(n).Size() == stride)
 }
 
+// ---- constants folded through a type alias lose the second word of func values
+type AF = struct {
+	a uint32
+	f func()
+	b bool
+}
+
+func probeAlias() {
+	var v AF
+	var a [2]AF
+	var w struct {
+		x AF
+		y int8
+	}
+	stride := uintptr(unsafe.Pointer(&a[1])) - uintptr(unsafe.Pointer(&a[0]))
+	off := uintptr(unsafe.Pointer(&w.y)) - uintptr(unsafe.Pointer(&w))
+	println("sizeof", unsafe.Sizeof(v), "stride", stride, "reflect size", reflect.TypeOf(v).Size(), "sizeof [2]T", unsafe.Sizeof(a), "offsetof field after alias", unsafe.Offsetof(w.y), "measured", off)
+	verdict("alias-func", unsafe.Sizeof(v) == stride && unsafe.Sizeof(a) == 2*stride && unsafe.Offsetof(w.y) == off)
+}
+
 func main() {
 	which := ""
 	if len(os.Args) > 1 {
@@ -136,7 +156,9 @@ func main() {
 		probeMap()
 	case "recursive":
 		probeRecursive()
+	case "alias":
+		probeAlias()
 	default:
-		println("usage: probe trailing|func|map|recursive")
+		println("usage: probe trailing|func|map|recursive|alias")
 	}
 }
